@@ -105,7 +105,7 @@ func execC20E2E(sc c20e2eScenario) core.Outcome {
 }
 
 var propC20E2E = core.Prop[c20e2eScenario]{
-	ID:  "C20",
+	ID: "C20", CrashLog: true,
 	Sub: "e2e",
 	Rule: "end to end: a Client against an instant (or 1-5 ms) scripted server with 6-10 segments of 40-80 ms media each (pacing makes the processor the slow side); " +
 		"oracle: when the k-th segment is requested at least k-3 earlier segments are fully delivered (at most two waiting plus one in process); non-trivial = the downloader was ahead of the processor by two segments",
